@@ -763,7 +763,7 @@ func (g *c12) rawHistory(n int) {
 }
 
 func genC12(o *vcoq.Out, r *vcoq.Rand, tier string) error {
-	o.Header = "From SC Require Import Base.Prelude Router.Registry Router.Pump Router.Route Router.RouterGet Router.RouterCb Router.RegistryW Router.RouteW Router.NameDefault Router.C12Judge."
+	o.Header = "From SC Require Import Base.Prelude Router.Registry Router.Pump Router.Route Router.RouterGet Router.RouterCb Router.RegistryW Router.RouterCbW Router.RouteW Router.NameDefault Router.C12Judge."
 	o.CaseType = "c12case"
 	o.Judge = "judge"
 	o.Shard = 60
